@@ -268,20 +268,27 @@ func runC09(c *Ctx) {
 		}
 	}
 	// quantities add, subtract and compare only within one unit
-	for _, pr := range [][2]string{{"mg", "mg"}, {"mg", "kg"}, {"days", "day"}, {"1", "1"}, {"", "1"}} {
-		q1, _ := mkq("5", pr[0])
-		q2, _ := mkq("2", pr[1])
-		for _, src := range []string{"%x + %q", "%x - %q", "%x < %q"} {
-			e, err := fhirpath.Compile(src)
-			if err != nil {
+	for _, pr := range [][2]string{{"mg", "mg"}, {"mg", "kg"}, {"days", "day"}, {"1", "1"}, {"", "1"}, {"year", "month"}, {"months", "days"}, {"seconds", "minutes"}, {"mg", "Mg"}, {"year", "year"}, {"a", "year"}, {"kg", "kg"}} {
+		for _, am := range [][2]string{{"5", "2"}, {"5", "5"}, {"1", "1"}, {"0", "0"}, {"1.0", "1"}, {"60", "60"}, {"2", "5"}, {"12", "12.00"}} {
+			q1, ok1 := mkq(am[0], pr[0])
+			q2, ok2 := mkq(am[1], pr[1])
+			if !ok1 || !ok2 {
 				continue
 			}
-			o := ev(e, map[string]any{"x": q1, "q": q2})
-			same := pr[0] == pr[1]
-			if same {
-				c.Law(o.Err == nil && len(o.Coll) == 1, "C09/quantity-unit", "quantities add, subtract and compare within one unit", fmt.Sprintf("5 '%s' %s 2 '%s'", pr[0], src, pr[1]), canonOutcome(o, nil))
-			} else {
-				c.Law(o.Err != nil || len(o.Coll) == 0, "C09/quantity-unit", "quantities of different units do not add, subtract or compare", fmt.Sprintf("5 '%s' %s 2 '%s'", pr[0], src, pr[1]), canonOutcome(o, nil))
+			for _, src := range []string{"%x + %q", "%x - %q", "%x < %q", "%x <= %q", "%x > %q", "%x >= %q"} {
+				e, err := fhirpath.Compile(src)
+				if err != nil {
+					continue
+				}
+				o := ev(e, map[string]any{"x": q1, "q": q2})
+				same := pr[0] == pr[1]
+				in := fmt.Sprintf("%s '%s' %s %s '%s'", am[0], pr[0], src, am[1], pr[1])
+				c.Observe("quantity-unit "+in, true)
+				if same {
+					c.Law(o.Err == nil && len(o.Coll) == 1, "C09/quantity-unit", "quantities add, subtract and compare within one unit", in, canonOutcome(o, nil))
+				} else {
+					c.Law(o.Err != nil || len(o.Coll) == 0, "C09/quantity-unit", "quantities of different units do not add, subtract or compare", in, canonOutcome(o, nil))
+				}
 			}
 		}
 	}
